@@ -490,6 +490,9 @@ func vc08Scenario(r *vc08Run, rng *rand.Rand, kind string, ls uint32, nb int, mo
 			// Load needs all consecutive leaves: only offered when everything is persisted and pages are contiguous,
 			// or (rarely) anyway — the model mirrors the code on gaps as well, the reference fold is skipped then
 			if mode == "contig" && r.contig {
+				if r.ls < 2048 && rng.Intn(3) == 0 { // DropLeaves, then persist (orphans are deleted) and reload the merged pages
+					r.exec(&vc08Op{Op: "tdrop"}, rng)
+				}
 				r.exec(&vc08Op{Op: "tpersist"}, rng)
 				if nb <= 16 {
 					r.exec(r.genLoadBytes(rng), rng)
